@@ -1,4 +1,5 @@
 (* Props/C04.v — property C04: every supplied scenario runs, nothing else runs, the run terminates. *)
+From CV Require Proofs.ReviewP3.
 From CV Require Proofs.ReviewP.
 From CV Require Proofs.SchedP10.
 From CV Require Import Model.Base Model.Events Model.Sched Proofs.BaseP Proofs.SchedP Proofs.SchedP2 Proofs.SchedP3 Proofs.SchedP4 Proofs.SchedP8.
@@ -89,3 +90,30 @@ Theorem C04_without_fail_fast_every_supplied_scenario_starts :
     forall x, In x (inserted_ids ls) -> In x (started_ids tr).
 Proof. exact ReviewP.all_supplied_started_no_ff. Qed.
 Print Assumptions C04_without_fail_fast_every_supplied_scenario_starts.
+
+
+(* ---------- NO SPINNING, beyond enabledness (review finding M9): once the parser has ended (limit not 0, as the property
+   quantifies), an idle loop turn has moved the clock, after it nothing but clock ticks can happen before the next turn, and
+   that next turn DISPATCHES: two idle turns never occur in a row. Before the parser has ended the loop may turn idly any
+   number of times while the parser is silent (ReviewP3.spin_while_the_parser_is_silent and two more witnesses: the real
+   runner yields to the executor at each such turn — repair F1 — which the harness observes as polls that return) ---------- *)
+Theorem C04_after_parsing_an_idle_turn_is_followed_by_a_dispatch :
+  forall c pre s0 tr0 s1 o1 mid s2 tr2 s3 o3,
+    exec c pre = Some (s0, tr0) -> In LParserEnd pre -> cf_concurrency c <> Some 0%nat ->
+    step c s0 LTop = Some (s1, o1) -> pc s1 = Yielded ->
+    exec_from c s1 mid = Some (s2, tr2) -> SchedP10.tops mid = 0%nat ->
+    step c s2 LTop = Some (s3, o3) ->
+    now s0 < now s1 /\ Forall ReviewP3.tick_label mid /\ pc s3 = Awaiting /\ running s3 <> [].
+Proof. exact ReviewP3.after_parsing_an_idle_turn_is_followed_by_a_dispatch. Qed.
+Print Assumptions C04_after_parsing_an_idle_turn_is_followed_by_a_dispatch.
+
+(* on label lists only: two loop turns in a row that both leave the loop idle happen only with limit 0 or before the parser
+   has ended *)
+Theorem C04_two_idle_turns_only_while_waiting_for_the_parser :
+  forall c pre mid s1 tr1 s3 tr3,
+    exec c (pre ++ [LTop]) = Some (s1, tr1) -> pc s1 = Yielded ->
+    SchedP10.tops mid = 0%nat ->
+    exec c ((pre ++ [LTop]) ++ mid ++ [LTop]) = Some (s3, tr3) -> pc s3 = Yielded ->
+    cf_concurrency c = Some 0%nat \/ ~ In LParserEnd (pre ++ [LTop] ++ mid).
+Proof. exact ReviewP3.two_idle_turns_labels. Qed.
+Print Assumptions C04_two_idle_turns_only_while_waiting_for_the_parser.
